@@ -122,4 +122,10 @@ theorem reducible_notOpn {f : Frame} (h : f.reducible = true) : f.isOpn = false 
 /-- tokens as the tokenizer produces them: operators are the registered ones -/
 def Lexed (ts : List Tok) : Prop := ∀ o, Tok.op o ∈ ts → o ∈ registered
 
+theorem Lexed_of_lexedB (ts : List Tok) (h : lexedB ts = true) : Lexed ts := by
+  intro o ho
+  simp only [lexedB, List.all_eq_true] at h
+  have := h (.op o) ho
+  simpa using this
+
 end Occa.Expr
